@@ -25,7 +25,7 @@ cc == EVar(Cv)
 I(n) == EInt(n)
 Idx0(e) == EIndex(e, I(0))
 
-ListOps == 1 .. 29
+ListOps == 1 .. 31
 ListOp(o) ==
     CASE o = 1  -> SAssign(b, a)                                   \* alias
       [] o = 2  -> SAssign(cc, a)
@@ -57,6 +57,9 @@ ListOp(o) ==
       [] o = 27 -> SAssign(b, ERIndex(ECall(EVar(R), <<>>), ENone, ENone))
       [] o = 28 -> SAssign(b, EListOf(<<Spread(ECall(EVar(R), <<>>))>>))
       [] o = 29 -> SAssign(b, EBin("+", Idx0(EList(<<a>>)), EList(<<>>)))
+      \* a pattern whose first target writes into the list being destructured: the second item is read afterwards
+      [] o = 30 -> SAssign(EPatRest(<<EIndex(cc, I(1)), b, EVar(N_us)>>), cc)
+      [] o = 31 -> SAssign(EPat(<<Idx0(a), cc>>), EList(<<b, a>>))
 
 ObjOps == 1 .. 18
 Kp(e) == EProp(e, KK)
